@@ -48,6 +48,12 @@ class Target:
         for n, s in ins: ports[n] = (s, 'i')
         for n, s in outs: ports[n] = (s, 'o')
         nl = nir2coq.elaborate(elab, ports)
+        # a target may state which clock inputs its configuration must have (e.g. a `domain=` constructor option)
+        exp = getattr(self, "expect_clocks", None)
+        if exp is not None:
+            clk_ports = sorted(nm for nm in nl.top.ports_i if nm == "clk" or nm.endswith("_clk"))
+            if clk_ports != sorted(exp):
+                raise RuntimeError(f"configuration must be clocked by {sorted(exp)} but the elaborated design has clock inputs {clk_ports}")
         consts = {}
         declared = {n for n, _ in ins}
         for nm in nl.top.ports_i:
